@@ -1,11 +1,70 @@
-"""C01 — see DESIGN.md section 4 and harness/storecheck.py."""
-from . import storecheck
+"""C01 — see DESIGN.md section 4 and harness/storecheck.py; plus the "... or load" half: documents that state the two ends
+of a bidirectional reference inconsistently."""
+import os
+import shutil
+import tempfile
+from . import storecheck, common, models, inconsistent
+from .c08 import unproxy
 
 CHECKS = ('c01',)
 
 
+def load_pass(ctx):
+    """saved documents with one end of a bidirectional reference rewritten (another valid target, a target dropped, a
+    target given twice): whatever the loader decides, the loaded model is symmetric"""
+    from pyecore.resources import ResourceSet, URI
+    from pyecore.resources.json import JsonResource
+    n = 120 if ctx.quick() else 2500
+    tmp = tempfile.mkdtemp(prefix='verif_c01_')
+    try:
+        for h in range(n):
+            rng = common.sub_rng(ctx.seed, 'C01', 'load', h)
+            sp = models.gen_mmspec(rng, h)
+            m = models.gen_model(rng, sp, nobj=rng.randint(3, 9), values='safe')
+            classes = [m.classes[c['name']] for c in sp.classes]
+            fmt = 'xmi' if h % 2 == 0 else 'json'
+            rset = ResourceSet()
+            rset.resource_factory['json'] = lambda uri: JsonResource(uri)
+            path = os.path.join(tmp, f'doc.{fmt}')
+            res = rset.create_resource(URI(path))
+            for r in m.roots:
+                res.append(r)
+            try:
+                res.save()
+            except Exception:
+                continue
+            data = open(path, 'rb').read()
+            variants = (inconsistent.xmi_variants if fmt == 'xmi' else inconsistent.json_variants)(rng, data, classes, 3)
+            for how, doc in [('as-saved', data)] + variants:
+                with open(path, 'wb') as fh:
+                    fh.write(doc)
+                rset2 = ResourceSet()
+                rset2.resource_factory['json'] = lambda uri: JsonResource(uri)
+                rset2.metamodel_registry[m.pk.nsURI] = m.pk
+                ctx.evaluations += 1
+                try:
+                    res2 = rset2.get_resource(URI(path))
+                except Exception:
+                    ctx.count(f'load/{fmt}/{how}/raised')
+                    continue
+                ctx.count(f'load/{fmt}/{how}/loaded')
+                bad = inconsistent.asymmetric(res2.contents, unproxy)
+                if how != 'as-saved':
+                    ctx.nontriv(('load', h, how))
+                if bad:
+                    ctx.violate({'clause': 'sym-after-load', 'format': fmt, 'document': how},
+                                f'after loading a {fmt} document ({how}): {bad}',
+                                {'case': h, 'format': fmt, 'document': how, 'text': doc.decode('utf-8', 'replace')[:3000]})
+                    break
+    finally:
+        shutil.rmtree(tmp, ignore_errors=True)
+
+
 def run(ctx):
     storecheck.run(ctx, CHECKS)
+    load_pass(ctx)
+    ctx.rule += ('; plus saved XMI / JSON documents with one end of a bidirectional reference rewritten (another valid target, a '
+                 'target dropped, a target given twice), loaded: symmetry of every opposite pair in whatever loads')
 
 
 def search(ctx):
@@ -13,4 +72,8 @@ def search(ctx):
 
 
 def replay(ctx, data):
+    if data.get('signature', {}).get('clause') == 'sym-after-load':
+        print('  ', data.get('what'))
+        print(data.get('replay', {}).get('text', '')[:2000])
+        return 1
     return storecheck.replay(ctx, data, CHECKS)
